@@ -12,7 +12,15 @@ if not (with_exit and without_exit and with_exit.group(1) != "0" and without_exi
     print("NOT KEPT: verification failed", with_exit and with_exit.group(1), without_exit and without_exit.group(1), suite_ok)
     sys.exit(1)
 os.makedirs(dst, exist_ok=True)
-shutil.copy(os.path.join(src, "mutant%s.diff" % ab), os.path.join(dst, "patch.diff"))
+rebased = "/var/tmp/rebased_%s%s.diff" % (pid, ab)
+orig = os.path.join(src, "mutant%s.diff" % ab)
+if os.path.exists(rebased):
+    # patch.diff applies to /repo's HEAD at the time of vetting; the agent's diff (older base) is kept next to it when it differs
+    shutil.copy(rebased, os.path.join(dst, "patch.diff"))
+    if open(rebased).read() != open(orig).read():
+        shutil.copy(orig, os.path.join(dst, "patch.as-written-by-agent.diff"))
+else:
+    shutil.copy(orig, os.path.join(dst, "patch.diff"))
 shutil.copy(os.path.join(src, "demo%s.cpp" % ab), os.path.join(dst, "demo.cpp"))
 meta = json.load(open(os.path.join(src, "meta%s.json" % ab)))
 checks = {}
@@ -32,7 +40,7 @@ meta_out = {
     "origin": "independent sub-agent with its own scratch worktree of /repo, given only the property text",
     "agent_description": meta,
     "verified_by_me": {
-        "applies_to": "repo HEAD at the time of vetting (patch -p1 on a scratch copy under /var/tmp)",
+        "applies_to": "repo HEAD at the time of vetting (%s); patch.diff = the agent's change 3-way merged onto that HEAD, single header re-joined; vetted on a scratch copy under /var/tmp" % os.popen("git -C /repo log --oneline | head -1").read().strip(),
         "repository_suite_with_change": "51 test cases passed, 0 failed (tools_suite.sh)",
         "demo_exit_with_change": int(with_exit.group(1)), "demo_exit_without_change": int(without_exit.group(1)),
     },
